@@ -4,6 +4,10 @@ import json, os
 V = os.path.dirname(os.path.dirname(os.path.abspath(__file__)))
 
 CHECKS = {
+    'C01': ('compile witness of the extracted output grammar (instantiated on model IRs, cargo check against the real crates) + identifier-hygiene / name-collision / definition-reference rules',
+            'Decided: (a) every template of the extracted grammar that is reachable from WGSL (148 of 153; the rest are table rows for types WGSL cannot spell) is instantiated in a self-consistent module on hand-made model IRs under many option sets and type-checked by rustc against the real wgpu 24 / bytemuck / encase / glam / serde crates (diagnostics mapped back to the quote! site) - this is type-checking the object-language fragments of the staged program, not compiling sampled outputs; (c) identifier conversion chains classified against naga\'s reserved-word table; (d) top-level name families vs fixed names; (e) impl-without-struct via the C07/C08 predicates. Genuine input classes on which the module cannot compile are known findings keyed exactly.',
+            'Trusted: Engine A/C term semantics; rustc + pinned crates; nalgebra only via a stub. NOT decided: interactions on inputs outside the modelled worlds (rustc per concrete output is the only complete oracle - a dynamic technique).',
+            'DESIGN.md section 3 C01'),
     'C10': ('glam leaf-table inclusion in encase\'s impl table (read from the pinned encase source) + shared composite-type / derive / closure rules',
             'The byte image written by encase is run-time behaviour and is NOT decided. Decided necessary structural clause: under Glam every vector / square-matrix leaf maps to a type for which encase-0.10/src/impls/glam.rs declares a vector/matrix impl of the same dimensions and scalar (never a plain array for a WGSL vector), scalars are encase-supported; arrays/structs/runtime arrays per C06 rules; ShaderType derived exactly on the closed host-shareable set when the switch is on (C09 rows + closure discipline).',
             'Trusted: encase lays out its impls per the WGSL rules; glam types. Known finding: f64 leaves have no encase impl.',
@@ -118,6 +122,8 @@ def main():
         'engines': [
             {'name': 'syndump+ogp', 'path': 'tools/syndump', 'serves_properties': sorted(k for k in CHECKS if k in ENGINE_A),
              'kind_free_text': 'syn-based AST dumper + Python abstract interpreter (lib/engine_ogp.py) producing the output grammar with provenance: templates, decision tables, hole provenance, effect summaries; finite-domain table lookup in lib/conc.py; schemas from pinned dependency sources in lib/schema.py'},
+            {'name': 'skeleton', 'path': 'tools/skeleton', 'serves_properties': ['C01'],
+             'kind_free_text': 'Engine C: the extracted grammar instantiated on model IRs (lib/engine_skel.py) and type-checked with cargo check against wgpu 24, bytemuck, encase, glam, serde (nalgebra stub)'},
             {'name': 'mirfacts', 'path': 'tools/mirfacts', 'serves_properties': sorted(k for k in CHECKS if k not in ENGINE_A),
              'kind_free_text': 'rustc_private driver (nightly) dumping resolved MIR facts of the crate: CFG, resolved callees, def-use, aggregates; rules in lib/rules/*.py'},
         ],
